@@ -157,6 +157,9 @@ def case_ltv(H, Tn, t0):
         H.prove(name + '/time', [], z3.BoolVal(tend == t0 + 2), replay=replay, key='C15/time')
 
 
+extra_time = {}
+
+
 def case_time_symbolic(H):
     """system time as a symbolic integer: one call from an arbitrary time t gives t+1; reset(k) and systime=k give k"""
     name = 'C15/time/inductive-step'
@@ -176,11 +179,42 @@ def case_time_symbolic(H):
         t3 = m.full_terms(sys_.systime)[0]
         sys_(x, u)
         t4 = m.full_terms(sys_.systime)[0]
+        k_after = m.full_terms(k)[0]            # the caller's tensor is a value, not the clock: a call must not advance it
+        other = pp.module.LTI(A, A[:, :1].clone(), A, A[:, :1].clone())
+        other.systime = sys_.systime            # copies the time of one system to another (int64 tensor, same device)
+        o1 = m.full_terms(other.systime)[0]
+        sys_(x, u)
+        o2 = m.full_terms(other.systime)[0]     # advancing the first system must not advance the second
+        t4b = m.full_terms(sys_.systime)[0]
+        other(x, u)
+        t4c = m.full_terms(sys_.systime)[0]
+        o3 = m.full_terms(other.systime)[0]
+        extra_time.clear()
+        extra_time.update(k_after=k_after, o1=o1, o2=o2, o3=o3, t4b=t4b, t4c=t4c)
         sys_.reset(7)
         t5 = m.full_terms(sys_.systime)[0]
         sys_.reset()
         t6 = m.full_terms(sys_.systime)[0]
         return tv[0], kv[0], t1, t2, t3, t4, t5, t6
+
+    def replay_alias(model):
+        A = torch.eye(2, dtype=DT)
+        a = pp.module.LTI(A, A[:, :1].clone(), A, A[:, :1].clone())
+        b = pp.module.LTI(A, A[:, :1].clone(), A, A[:, :1].clone())
+        x, u = torch.zeros(2, dtype=DT), torch.zeros(1, dtype=DT)
+        k = torch.tensor(int(model.get('k', 5)))
+        k0 = int(k)
+        a.systime = k
+        a(x, u)
+        r1 = (int(k), int(a.systime))
+        b.systime = a.systime
+        a(x, u)
+        r2 = (int(a.systime), int(b.systime))
+        b(x, u)
+        r3 = (int(a.systime), int(b.systime))
+        bad = r1 != (k0, k0 + 1) or r2 != (k0 + 2, k0 + 1) or r3 != (k0 + 2, k0 + 2)
+        return bad, ('a.systime = k (tensor %d); a(); -> (k, a.systime) = %s; b.systime = a.systime; a() -> (a, b) = %s; b() -> (a, b) = %s'
+                     % (k0, r1, r2, r3))
 
     def replay(model):
         A = torch.eye(2, dtype=DT)
@@ -207,6 +241,10 @@ def case_time_symbolic(H):
         H.prove(name + '/call:t->t+1', [], z3.And(tr(t1) == tr(t) + 1, tr(t2) == tr(t) + 2), replay=replay, key='C15/time')
         H.prove(name + '/assign:systime=k', [], tr(t3) == tr(k), replay=replay, key='C15/time')
         H.prove(name + '/call-after-assign', [], tr(t4) == tr(k) + 1, replay=replay, key='C15/time')
+        e = extra_time
+        H.prove(name + '/assigned-tensor-is-not-aliased', [], tr(e['k_after']) == tr(k), replay=replay_alias, key='C15/time')
+        H.prove(name + '/systems-keep-separate-clocks', [], z3.And(tr(e['o1']) == tr(k) + 1, tr(e['o2']) == tr(k) + 1, tr(e['t4b']) == tr(k) + 2,
+                                                                 tr(e['o3']) == tr(k) + 2, tr(e['t4c']) == tr(k) + 2), replay=replay_alias, key='C15/time')
         H.prove(name + '/reset(7)', [], tr(t5) == 7, replay=replay, key='C15/time')
         H.prove(name + '/reset()', [], tr(t6) == 0, replay=replay, key='C15/time')
 
@@ -246,10 +284,26 @@ def nls_models():
     return [('cos-affine-in-t', f1, g1, 2, 2), ('poly', f2, g2, 2, 1), ('trig-mixed', f3, g3, 2, 2), ('cubic', f4, g4, 2, 2)]
 
 
-def case_nls(H, mname, f, g, n, mdim, history, tref, post=0):
+def case_nls(H, mname, f, g, n, mdim, history, tref, post=0, noarg=False):
     """history: list of ('call',) / ('reset', k) ; tref: None (use systime) or int or 'tensor0';
     post: number of further calls of the system AFTER set_refpoint and before A..D, c1, c2 are read (the reference point was set, it must stay)"""
     name = 'C15/NLS/%s/history=%s/tref=%s' % (mname, history, tref) + ('/calls-after-set_refpoint=%d' % post if post else '')
+    if noarg:
+        # an earlier reference point is set and read, the system is called at (x, u), then set_refpoint() WITHOUT arguments:
+        # "the most recent state / input / time" - the matrices must be those of the new point
+        name += '/argument-less-set_refpoint-after-an-earlier-one'
+
+    def set_ref(sys_, x, u, targ, tstar):
+        if not noarg:
+            sys_.set_refpoint(state=x, input=u, t=targ)
+            return tstar
+        sys_.set_refpoint(state=torch.tensor([0.1, 0.9][:n], dtype=DT), input=torch.tensor([-0.3, 0.6][:mdim], dtype=DT), t=torch.tensor(0))
+        for nm in ('A', 'B', 'C', 'D', 'c1', 'c2'):
+            getattr(sys_, nm)
+        tnow = int(sys_.systime)
+        sys_(x, u)
+        sys_.set_refpoint()
+        return tnow + 1
 
     def run_post(sys_):
         for _ in range(post):
@@ -291,7 +345,7 @@ def case_nls(H, mname, f, g, n, mdim, history, tref, post=0):
         x = torch.tensor([0.4, -0.7][:n], dtype=DT)
         u = torch.tensor([0.2, 0.5][:mdim], dtype=DT)
         xs, us = m.symbolic(x, 'x'), m.symbolic(u, 'u')
-        sys_.set_refpoint(state=x, input=u, t=targ)
+        tstar = set_ref(sys_, x, u, targ, tstar)
         run_post(sys_)
         A, B, C, D = sys_.A, sys_.B, sys_.C, sys_.D
         c1, c2 = sys_.c1, sys_.c2
@@ -312,7 +366,7 @@ def case_nls(H, mname, f, g, n, mdim, history, tref, post=0):
         tstar, targ = tval(tnow)
         x = tensor_from_env(['x%d' % i for i in range(n)], model)
         u = tensor_from_env(['u%d' % i for i in range(mdim)], model)
-        sys_.set_refpoint(state=x, input=u, t=targ)
+        tstar = set_ref(sys_, x, u, targ, tstar)
         run_post(sys_)
         tt = torch.tensor(tstar)
         Ar = torch.autograd.functional.jacobian(lambda z: f(z, u, tt), x)
@@ -443,9 +497,9 @@ def run(H):
                     import traceback; traceback.print_exc()
                     H.engine_error('nls/' + mname, e)
     for mname, f, g, n, mdim in nls_models()[:(2 if H.quick else 4)]:
-        for history, tref, post in (([('call',)], None, 1), ([], 2, 2)) + (() if H.quick else (([('reset', 3)], None, 2), ([('call',)], 'tensor0', 1))):
+        for history, tref, post in (([('call',)], None, 1), ([], 2, 2), ([('call',)], None, -1)) + (() if H.quick else (([('reset', 3)], None, 2), ([('call',)], 'tensor0', 1), ([], None, -1))):
             try:
-                case_nls(H, mname, f, g, n, mdim, history, tref, post=post)
+                case_nls(H, mname, f, g, n, mdim, history, tref, post=max(post, 0), noarg=(post < 0))
             except Exception as e:
                 import traceback; traceback.print_exc()
                 H.engine_error('nls-post/' + mname, e)
